@@ -102,12 +102,13 @@ CHECKS["C06"] = {
 CHECKS["C07"] = {
     "gen_ties": ["Builtins"],
     "level": "proof",
-    "lean_targets": ["Yae.Props.C07"],
+    "lean_targets": ["Yae.Props.C07", "Yae.Props.C07b"],
     "streams": [
         {"name": "envcheck", "quick_n": 3000, "thorough_n": 40000,
          "oracles": ["envcheck-accepts-mismatch", "envcheck-rejects-equal", "envcheck-evaluated-on-reject", "envcheck-panic", "envcheck-wrong-result", "process-crash"]},
+        {"name": "engine", "quick_n": 1500, "thorough_n": 20000, "oracles": ["api-panic", "process-crash"]},
     ],
-    "explanation": "Decision logic of the facade's environment check over the model (Conv.envCheck), proved: accepted iff every compile-time name is bound at run time to a value of an equal type (C07.accept_iff, reject_iff, reject_missing, reject_mismatch, undefined_iff); extra names never matter (extra_names_ok); the verdict, error class included, is invariant under re-ordering of both environments (order_irrelevant); only the types of the bound values matter (only_types_matter); a value whose own object type is a field permutation of the declared type passes (field_order_ok); acceptance plus well-formed values gives the premise of C01/C02 (accepted_env_ok). Tie: envcheck stream through the public API (Compile, Callable) on pairs of struct / map / raw environments and their mutations, half of them after a warm-up call on the same Callable, with a tracing host function making 'evaluates nothing' observable. The stream also compiles other expressions on the same engine between a compilation and its invocation, builds compile-time types whose components are one shared node (a DAG), and realises ONE declaration as two Go types (other field order, numeric kinds, pointers): such bindings are equal by construction and must be accepted whatever the reflection layer makes of them.",
+    "explanation": "Decision logic of the facade's environment check over the model (Conv.envCheck), proved: accepted iff every compile-time name is bound at run time to a value of an equal type (C07.accept_iff, reject_iff, reject_missing, reject_mismatch, undefined_iff); extra names never matter (extra_names_ok); the verdict, error class included, is invariant under re-ordering of both environments (order_irrelevant); only the types of the bound values matter (only_types_matter); a value whose own object type is a field permutation of the declared type passes (field_order_ok); acceptance plus well-formed values gives the premise of C01/C02 (accepted_env_ok). Tie: envcheck stream through the public API (Compile, Callable) on pairs of struct / map / raw environments and their mutations, half of them after a warm-up call on the same Callable, with a tracing host function making 'evaluates nothing' observable. The stream also compiles other expressions on the same engine between a compilation and its invocation, builds compile-time types whose components are one shared node (a DAG), and realises ONE declaration as two Go types (other field order, numeric kinds, pointers): such bindings are equal by construction and must be accepted whatever the reflection layer makes of them. At the level of the engine object (Model/Engine.lean, tied by the engine stream): a rejected invocation returns the environment error with an EMPTY event log - no host call, no print line, no debug entry - for every engine, compiler, Callable and environment (C07.reject_evaluates_nothing, missing_or_mistyped_evaluates_nothing); an accepted one is exactly the compiled tree evaluated on the run-time bindings (accept_evaluates_normally, equal_types_evaluate_normally).",
     "assumptions": [],
 }
 
